@@ -14,6 +14,10 @@ pub const PLAIN_KEYS: &[&str] = &[
     // direction marks and other invisible format characters, as they arrive in names exported from chat logs,
     // right-to-left column titles and copied Windows paths (Bidi_Control, ZWJ / ZWNJ, soft hyphen, word joiner)
     "\u{200e}name", "\u{5e9}\u{5dd}\u{200f}", "\u{202a}C:/Users/x\u{202c}", "\u{2066}a\u{2069}", "\u{61c}", "a\u{200d}b", "a\u{200c}b", "co\u{ad}op", "a\u{2060}b", "\u{202e}txt.exe",
+    // every ASCII punctuation mark inside a name (AT&T, 100%, C#, a+b, k=v, x;y, <tag>, {id}, a^b, a|b, what?, a:b, a!)
+    "R&D", "100%", "C#", "a+b", "k=v", "x;y", "<tag>", "{id}", "a^b", "a|b", "what?", "a:b", "a!", "a&&b", "a||b", "a==b", "`a`", "a,b;c",
+    // typographic quotation marks and other characters a "smart" editor or a lenient reader takes for quotes
+    "O\u{2019}Brien", "l\u{2019}\u{e9}t\u{e9}", "\u{201c}draft\u{201d}", "\u{2018}x\u{2019}", "a\u{b4}b", "a`b", "5\u{2032}", "\u{ff07}a\u{ff07}", "\u{ff02}a\u{ff02}", "\u{ab}a\u{bb}", "\u{201e}a\u{201c}",
     // look-alikes that only a Unicode normalisation would identify (precomposed / decomposed, compatibility
     // characters), case variants, and long names
     "e\u{301}", "\u{c5}", "\u{212b}", "A\u{30a}", "\u{df}", "ss", "SS", "\u{131}", "i", "I",
@@ -115,7 +119,7 @@ pub fn gen_scalar(src: &mut Src) -> J {
         2 => J::Bool(true),
         3 => J::Int(*src.pick(&[0, 1, 2, -1, 3, 5, 10, 100, 1_700_000_000_000, 1_234_567_890_123_456, 4_294_967_296, -2_147_483_649])),
         4 => J::Float(*src.pick(&[1.0, 1.5, 0.5, -0.0, 2.0, 0.1, 1e2, -1.5, 0.0, 0.3, 0.30000000000000004, 1e-20])),
-        5 => J::Str(src.pick(&["", "a", "b", "ab", "1", "A", "é", "𝄞", "abc", " ", "a. b", "(", "f(x)", "2024-02-29T23:59:60Z"]).to_string()),
+        5 => J::Str(src.pick(&["", "a", "b", "ab", "1", "A", "é", "𝄞", "abc", " ", "a. b", "(", "f(x)", "2024-02-29T23:59:60Z", "R&D", "a%b#c;", "<a>{b}", "x+y=z", "a^b|c!", "9", "10", "010", "1e1", "Inf", "NaN", "true", "null"]).to_string()),
         _ => match src.below(7) {
             4 => J::Str(src.pick(&["x", "é", "𝄞"]).repeat(*src.pick(&[64usize, 255, 256, 257, 1000]))),
             // integers beyond the I-JSON range (a document may hold them; a query literal may not): a
